@@ -17,6 +17,7 @@ import (
 	enc "github.com/named-data/ndnd/std/encoding"
 	"github.com/named-data/ndnd/std/ndn"
 	spec "github.com/named-data/ndnd/std/ndn/spec_2022"
+	sec "github.com/named-data/ndnd/std/security"
 	"pgregory.net/rapid"
 
 	"verif/harness/internal/evid"
@@ -42,6 +43,10 @@ type TdFace struct {
 	Send    []int `json:"send"`    // prefixes of the Interests it sends, in order
 	CloseAt int   `json:"closeAt"` // closes its transport after that many Interests (>= len(Send): at the end)
 	Yield   int   `json:"yield"`   // yields the processor after every n-th Interest (0: never)
+	// Answer: the face also plays producer: between its own Interests it answers every Interest the
+	// forwarder sent it with Data echoing the PIT token, so that the threads' Data pipelines
+	// (PIT match, downstream face lookup, send) run while the downstream faces are being torn down
+	Answer bool `json:"ans,omitempty"`
 }
 
 type TdCase struct {
@@ -56,7 +61,7 @@ func genTdCase(t *rapid.T) TdCase {
 	c := TdCase{Procs: rapid.SampledFrom([]int{2, 4, 8, 16}).Draw(t, "procs")}
 	nf := rapid.IntRange(2, 8).Draw(t, "faces")
 	for i := 0; i < nf; i++ {
-		f := TdFace{Yield: rapid.SampledFrom([]int{0, 1, 2, 5}).Draw(t, "yield")}
+		f := TdFace{Yield: rapid.SampledFrom([]int{0, 1, 2, 5}).Draw(t, "yield"), Answer: rapid.IntRange(0, 2).Draw(t, "answer") != 0}
 		for p := 0; p < tdPrefixes; p++ {
 			if rapid.IntRange(0, 2).Draw(t, "reg") == 0 {
 				f.Pfx = append(f.Pfx, p)
@@ -82,6 +87,29 @@ func genTdCase(t *rapid.T) TdCase {
 }
 
 var tdSeq atomic.Uint64
+
+var tdSigner = sec.NewSha256Signer()
+
+// tdAnswers: a Data frame (echoing the PIT token) for every Interest among the frames a face received.
+func tdAnswers(frames [][]byte) (out [][]byte) {
+	for _, fr := range frames {
+		lp, err := lpwire.ParseFrame(fr)
+		if err != nil || len(lp.Fragment) == 0 || lp.Fragment[0] != 0x05 {
+			continue
+		}
+		p, _, err := spec.ReadPacket(enc.NewBufferReader(append([]byte{}, lp.Fragment...)))
+		if err != nil || p.Interest == nil {
+			continue
+		}
+		d, err := spec.Spec{}.MakeData(p.Interest.NameV.Clone(), &ndn.DataConfig{}, enc.Wire{[]byte("td")}, tdSigner)
+		if err != nil {
+			continue
+		}
+		ans := lpwire.LP{Fragment: d.Wire.Join(), HasFragment: true, PitToken: lp.PitToken}
+		out = append(out, ans.Encode())
+	}
+	return out
+}
 
 func tdInterest(round uint64, prefix int, tag string) []byte {
 	n, _ := enc.NameFromStr(fmt.Sprintf("/td/r%d/p%d/%s-%d", round, prefix, tag, tdSeq.Add(1)))
@@ -174,11 +202,22 @@ func tdOnce(c TdCase, algo string) error {
 					return
 				}
 				faces[i].ls.VerifHandleIncomingFrame(tdInterest(round, p, fmt.Sprintf("f%d", i)))
+				if f.Answer {
+					for _, ans := range tdAnswers(faces[i].tr.VerifTakeFrames()) {
+						faces[i].ls.VerifHandleIncomingFrame(ans)
+					}
+				}
 				if f.Yield > 0 && k%f.Yield == 0 {
 					runtime.Gosched()
 				}
 			}
 			if !closed {
+				if f.Answer {
+					runtime.Gosched()
+					for _, ans := range tdAnswers(faces[i].tr.VerifTakeFrames()) {
+						faces[i].ls.VerifHandleIncomingFrame(ans)
+					}
+				}
 				faces[i].tr.Close()
 			}
 		}(i, f)
